@@ -60,6 +60,9 @@ class Callables:
                 arg_ref = arg()
                 if arg_ref is None:
                     continue
+            elif func() is None:
+                # plain function (not a bound method) that was deleted
+                continue
             _callbacks.append((func, arg))
         self._callbacks = _callbacks
 
@@ -71,7 +74,9 @@ class Callables:
                 if arg_ref is not None:
                     func()(arg_ref, *args, **kwargs)
             else:
-                func()(*args, **kwargs)
+                func_ref = func()
+                if func_ref is not None:
+                    func_ref(*args, **kwargs)
         # Flush after calling all the callbacks, not before, as callbacks in the
         # beginning of the iteration might cause new dead arg weakrefs in
         # callbacks that are iterated over later.
